@@ -184,6 +184,10 @@ def canon_unions(text):
         i = k
 
 
+def exp_term(exp):
+    return "ExpOutside" if exp is None else ("ExpOk" if exp == "ok" else f"(ExpMT {coq_str(exp)})")
+
+
 def outcome_term(rc, out, err):
     """observed process -> Gallina `outcome`; fails closed on shapes it does not expect"""
     out = canon_unions(out)
@@ -347,6 +351,7 @@ def gen_worlds(tier, rnd):
         ws.append(sorted(rnd.sample(fx.ALL_MUTS, k)))
     if tier == "thorough":
         ws += [[m] for m in fx.ALL_MUTS]
+    ws.append(sorted(fx.TYPE_MUTS))        # classes / modules gone or rebound, functions reshaped, every function still there
     ws.append(["broken", "f_removed"])       # outside the property: the module no longer compiles
     return ws
 
@@ -359,7 +364,7 @@ def sc(world, tags, module=fx.TARGET, qualname=None, cmd="stub", verbose=False, 
 def gen_scenarios(tier, rnd, env):
     quick = tier == "quick"
     nw = len(env.worlds)
-    W0, WALL, WBROKEN = 0, 1, nw - 1
+    W0, WALL, WTYPES, WBROKEN = 0, 1, nw - 2, nw - 1
     out = []
     allm = set(fx.ALL_MUTS)
     stale = [t for t in mod_tags(env.pool) if fx.expected(t, allm) != "ok"] + ["params", "builtin"]
@@ -417,12 +422,27 @@ def gen_scenarios(tier, rnd, env):
     # (d'') `apply` with every stale kind in one store (all of them skipped, the valid rows applied)
     out.append(sc(WALL, tags_all_interleaved(env.pool, stale), cmd="apply", verbose=True, family="apply-every-kind"))
     out.append(sc(WALL, tags_all_interleaved(env.pool, stale), cmd="apply", sample_count=True, family="apply-every-kind"))
-    # ... and each stale kind alone between valid rows (quick: every second kind, the others through `stub` above)
+    # ... and each stale kind alone between valid rows (quick: every third kind, the others through `stub` above)
     for i, t in enumerate(stale):
-        if quick and i % 2:
+        if quick and i % 3:
             continue
         p = (i // 2) % 4
         out.append(sc(WALL, V3[:p] + [t] + V3[p:], cmd="apply", verbose=bool((i // 2) % 2), family="apply-every-kind"))
+    # (d3) two stale facts in one row (class gone for a parameter that is gone too; yield class gone and the function
+    # no longer a generator; return class gone and the function now a generator; non-types nested in generics), in the
+    # world where every function still exists, so that nothing but the types makes these rows stale
+    dbl = [t for t in fx.DOUBLE_TAGS if fx.expected(t, set(fx.TYPE_MUTS)) != "ok"]
+    groups = [dbl[i::4] for i in range(4)] if quick else [[t] for t in dbl] + [dbl[i::4] for i in range(4)]
+    for j, g in enumerate(groups):
+        store = []
+        for i, t in enumerate(g):
+            store += [t, V3[i % 3]] if (i + j) % 2 else [V3[i % 3], t]
+        store = list(dict.fromkeys(store + ["ok2"]))
+        out.append(sc(WTYPES, store, cmd="apply" if j % 2 else "stub", verbose=bool((j // 2) % 2),
+                      family="two-stale-facts-in-one-row"))
+        if not quick:
+            out.append(sc(WTYPES, store, cmd="stub" if j % 2 else "apply", verbose=not bool((j // 2) % 2),
+                          sample_count=True, family="two-stale-facts-in-one-row"))
     # (e) the unmutated package: the whole pool decodes except the local-scope function
     out.append(sc(W0, tags, sample_count=True, family="unmutated"))
     out.append(sc(WALL, tags, verbose=True, sample_count=True, family="whole-pool"))
@@ -455,8 +475,11 @@ def evaluate(env, scenarios, workname):
         results = env.worlds[s["world"]]["probe"]["results"]
         tags1 = [env.tag_of[tuple(r)] for r in rows1]
         real1 = [results[t] for t in tags1]
-        tags2 = [t for t, r in zip(tags1, real1) if r[0] == "ok"]
-        prepared.append({"s": s, "dir": d, "db": db, "rows1": rows1, "tags1": tags1, "real1": real1, "tags2": tags2})
+        muts = set(env.worlds[s["world"]]["muts"])
+        exp1 = [fx.expected(t, muts) for t in tags1]
+        # the rows that are valid BY CONSTRUCTION of the fixture (not: the rows the implementation says it can decode)
+        tags2 = [t for t, e in zip(tags1, exp1) if e == "ok"]
+        prepared.append({"s": s, "dir": d, "db": db, "rows1": rows1, "tags1": tags1, "real1": real1, "exp1": exp1, "tags2": tags2})
     # second runs (decodable rows alone), shared between scenarios that agree on everything that matters
     second = {}
     for p in prepared:
@@ -497,7 +520,7 @@ def evaluate(env, scenarios, workname):
                 f"{coq_str(os.path.splitext(s['module'])[0])})")
         terms.append(
             f"SCase {env.worlds[s['world']]['name']} {args}\n    {coq_list(row_term(r) for r in p['rows1'])}\n"
-            f"    {coq_list(rres_term(r) for r in p['real1'])}\n    {outcome_term(*p['obs1'])}\n"
+            f"    {coq_list(exp_term(e) for e in p['exp1'])}\n    {outcome_term(*p['obs1'])}\n"
             f"    {coq_list(row_term(r) for r in s2['rows2'])}\n    {outcome_term(*s2['obs2'])}")
     return terms, prepared
 
@@ -506,7 +529,7 @@ def describe(env, p):
     s = p["s"]
     return (f"world(mutations)={env.worlds[s['world']]['muts']} rows(in store order)={p['tags1']} "
             f"argv={cli_argv(s)} -> rc={p['obs1'][0]} stdout={p['obs1'][1][:300]!r} stderr={p['obs1'][2][-600:]!r}; "
-            f"decodable rows alone {p['tags2']} -> rc={p['obs2'][0]} stdout={p['obs2'][1][:300]!r} stderr={p['obs2'][2][-300:]!r}")
+            f"rows valid by construction alone {p['tags2']} -> rc={p['obs2'][0]} stdout={p['obs2'][1][:300]!r} stderr={p['obs2'][2][-300:]!r}")
 
 
 class cases_built:
@@ -646,7 +669,7 @@ def run(ctx):
         failures.append(rec)
 
     nontrivial = {common.digest(t) for t, p in zip(cli_terms, prepared)
-                  if any(r[0] == "ok" for r in p["real1"]) and any(r[0] != "ok" for r in p["real1"])}
+                  if any(e == "ok" for e in p["exp1"]) and any(e != "ok" for e in p["exp1"])}
     dist["subprocesses"] = env.nproc
     dist["worlds"] = len(env.worlds)
     dist["harness_wall_s"] = round(time.time() - t0, 1)
